@@ -249,14 +249,14 @@ def _hook_factory(ph, spec):
     return f
 
 
-def make_mw_type(key, unique, reorderable, funcs, wsgi=False, base=None, hooks='method', static_name=None, cls_name=None, field_eq=False):
+def make_mw_type(key, unique, reorderable, funcs, wsgi=False, base=None, hooks='method', static_name=None, cls_name=None, field_eq=False, inst_provides=False):
     """One class object per type key: Middleware equality is type equality.
 
     funcs: {'request'|'endpoint'|'render': {'req':[], 'opt':[], 'kwreq':[], 'kwopt':[], 'provides':[]}}
     base:  another class made here (the new type is a SUBCLASS of it -- still a different type)
     hooks: 'method' (functions on the class) | 'closure' (plain functions set on the instance in __init__)
            | 'static' (staticmethods: every instance hands out the SAME function object; layer name = static_name)"""
-    ck = (key, unique, reorderable, repr(sorted((k, sorted(v.items())) for k, v in funcs.items())), id(base), hooks, static_name, cls_name, field_eq)
+    ck = (key, unique, reorderable, repr(sorted((k, sorted(v.items())) for k, v in funcs.items())), id(base), hooks, static_name, cls_name, field_eq, inst_provides)
     if ck in _TYPE_CACHE:
         return _TYPE_CACHE[ck]
     attrs = {'unique': unique, 'reorderable': reorderable}
@@ -276,6 +276,11 @@ def make_mw_type(key, unique, reorderable, funcs, wsgi=False, base=None, hooks='
     def __init__(self, sim_name):
         self._sim_name = sim_name
         for ph, spec in closures.items():
+            if inst_provides and ph == 'request':
+                # like ScriptRootMiddleware(provided_name=...): WHAT the instance provides is its own business
+                # (here: one more name, after the level the instance is listed at)
+                spec = dict(spec, provides=list(spec.get('provides', ())) + ['lv_%s_%s' % (sim_name[0], sim_name.split(':')[-1])])
+                self.provides = tuple(spec['provides'])
             hook = _hook_factory(ph, spec)
             # the generated function refers to its layer by name: bind it
             hook = _bind_name(hook, sim_name + '.' + ph, spec)
